@@ -3,7 +3,7 @@ multi-step situations each clause is about, executed in every tier in addition
 to TLC-generated behaviours and random scenarios."""
 
 BASE = dict(lockAfter=2, lockWindow=2, lockDuration=2, expireAfter=2, recoverTTL=2, recoverLogin=False, emailAuth=False,
-            totpOneTime=False, whitelist=[], logoutMethod='DELETE', mwReqs=0, mwFail='404', errWrites=False, json=False, mailGo=False, foldPid=False)
+            totpOneTime=False, whitelist=[], logoutMethod='DELETE', mwReqs=0, mwFail='404', errWrites=False, json=False, mailGo=False, foldPid=False, regNoWhitelist=False)
 E0 = dict(act='none', b='none', pid='none', pw=0, tok=0, rm=False, valid=True, d=0, method='none', code=0, rc=0, g=0,
           kind='none', prov='none', outcome='none', phone=0, redir='none', k='none')
 
@@ -81,4 +81,74 @@ SCRIPTS['C18'] = [
     sc('f-oauth', ['auth', 'oauth2', 'remember', 'lock', 'logout'],
        [ev('OAuthStart', prov='pa', rm=True), ev('OAuthCallback', prov='pa', tok=1, outcome='x'), ev('DropSession'), probe(),
         ev('Logout', method='DELETE')], errWrites=False),
+]
+
+SCRIPTS['C02'] = [
+    sc('rc-reuse-totp', ['auth', 'totp', 'logout'],
+       [login('u1', 1), ev('TotpValidate', rc=1, g=1), ev('Logout', method='DELETE'), login('u1', 1), ev('TotpValidate', rc=1, g=1),
+        login('u1', 1, b='b2'), ev('TotpValidate', 'b2', rc=1, g=1), ev('TotpValidate', 'b2', rc=2, g=1)],
+       seed=[U('u1', 1, totp=True, rc=True), U('u2', 2)]),
+    sc('rc-reuse-sms', ['auth', 'sms', 'lock', 'logout'],
+       [login('u2', 2), ev('SmsValidate', rc=3, g=1), ev('Logout', method='DELETE'), login('u2', 2), ev('SmsValidate', rc=3, g=1),
+        ev('SmsValidate', code=2)], seed=[U('u1', 1), U('u2', 2, sms=1, rc=True)]),
+    sc('pending-switch', ['auth', 'sms', 'totp', 'logout'],
+       [login('u2', 2), login('u1', 1), ev('SmsValidate', code=1), ev('TotpValidate', tok=1, code=1), tick(1),
+        login('u2', 2), login('u1', 1), ev('SmsValidate', code=2)],
+       seed=[U('u1', 1, totp=True, rc=True), U('u2', 2, sms=1, rc=True)]),
+    sc('sms-switch-inside-limit', ['auth', 'sms', 'logout'],
+       [login('u2', 2), login('u1', 1), ev('SmsValidate', code=1), ev('SmsValidate', code=0), tick(1), ev('SmsValidate', code=0),
+        ev('SmsValidate', code=1), ev('SmsValidate', code=2)],
+       seed=[U('u1', 1, sms=1, rc=True), U('u2', 2, sms=2)]),
+]
+SCRIPTS['C12'] = SCRIPTS['C02'][:2] + [
+    sc('otp-replay', ['auth', 'otp', 'totp', 'logout'],
+       [ev('OtpLoginPost', pid='u2', tok=2), ev('OtpLoginPost', 'b2', pid='u2', tok=2), ev('OtpLoginPost', 'b2', pid='u2', tok=3),
+        ev('OtpLoginPost', pid='u1', tok=1), ev('TotpValidate', tok=1, code=1), ev('OtpLoginPost', 'b2', pid='u1', tok=1)],
+       seed=[U('u1', 1, totp=True, rc=True, otps=1), U('u2', 2, otps=2)]),
+]
+SCRIPTS['C07'] = [
+    sc('oauth-stale-params', ['auth', 'oauth2', 'remember', 'logout'],
+       [ev('OAuthStart', prov='pa', rm=True), ev('OAuthStart', prov='pa'), ev('OAuthCallback', prov='pa', tok=2, outcome='x'),
+        ev('DropSession'), probe()]),
+    sc('cookie-theft', ['auth', 'remember', 'logout'],
+       [login('u1', 1, rm=True), ev('StealCookie', k='b2'), ev('DropSession'), probe('b2'), probe('b1'), probe('b2'), probe('b1')], mwReqs=0),
+    sc('halfauth-then-refused-login', ['auth', 'remember', 'confirm', 'logout'],
+       [login('u1', 1, rm=True), ev('DropSession'), probe(), login('u2', 2), probe(), login('u2', -1), probe()],
+       seed=[U('u1', 1), U('u2', 2, conf=False)], mwReqs=1),
+]
+SCRIPTS['C10'] = [
+    sc('cookie-only-logout', ['auth', 'remember', 'logout'],
+       [login('u1', 1, rm=True), ev('DropSession'), ev('Logout', method='DELETE'), probe(), login('u1', 1, rm=True),
+        ev('Logout', method='GET'), ev('Logout', method='DELETE'), probe()]),
+    sc('logout-mid-flows', ['auth', 'totp', 'sms', 'oauth2', 'recovery', 'logout'],
+       [login('u1', 1), ev('Logout', method='POST'), probe(), login('u2', 2), ev('Logout', method='POST'), probe(),
+        ev('OAuthStart', prov='pa', rm=True, redir='redir'), ev('Logout', method='POST'),
+        login('g1', -1), ev('AppKey', 'b1', k='app1'), ev('AppKey', 'b1', k='app2'), ev('Logout', method='POST')],
+       seed=[U('u1', 1, totp=True, rc=True), U('u2', 2, sms=1)], logoutMethod='POST', whitelist=['app1']),
+    sc('logout-mid-setup', ['auth', 'totp', 'sms', 'logout'],
+       [login('u1', 1), ev('TotpSetup'), ev('SmsSetup', phone=1), ev('EmailVerifyStart', kind='totp'), ev('Logout', method='DELETE'), probe()],
+       emailAuth=False),
+]
+SCRIPTS['C13'] = [
+    sc('pending-victim-then-own-login', ['auth', 'sms', 'totp', 'recovery', 'logout'],
+       [login('u2', 2), login('u1', 1), tick(1), ev('SmsSetup', phone=2), ev('SmsConfirm', code=2), ev('RecoveryRegen'),
+        ev('TotpSetup'), ev('TotpConfirm', tok=1, code=1), ev('TotpRemove', tok=1, code=3)],
+       seed=[U('u1', 1), U('u2', 2, sms=1, rc=True)]),
+    sc('halfauth-cannot-change', ['auth', 'remember', 'totp', 'sms', 'recovery', 'logout'],
+       [login('u1', 1, rm=True), ev('DropSession'), ev('RecoveryRegen'), ev('TotpSetup'), ev('SmsSetup', phone=1),
+        ev('TotpRemove', tok=1, code=1), ev('TotpRemove', rc=1, g=1)], seed=[U('u1', 1, totp=True, rc=True), U('u2', 2)]),
+    sc('setup-resend-other-number', ['auth', 'sms', 'logout'],
+       [login('u1', 1), ev('SmsSetup', phone=1), ev('SmsSetup', phone=2), ev('SmsConfirm', code=1), tick(1), ev('SmsSetup', phone=2),
+        ev('SmsConfirm', code=1), ev('SmsConfirm', code=2)], errWrites=True),
+    sc('email-auth', ['auth', 'totp', 'logout'],
+       [login('u1', 1), ev('TotpSetup'), ev('EmailVerifyEnd', kind='totp', tok=-1, junk='empty'), ev('TotpSetup'),
+        ev('EmailVerifyStart', kind='totp'), ev('EmailVerifyEnd', kind='totp', tok=1), ev('TotpSetup'), ev('TotpConfirm', tok=1, code=1),
+        ev('TotpSetup')], emailAuth=True),
+]
+SCRIPTS['C19'] = [
+    sc('no-whitelist-extra-fields', ['auth', 'register', 'logout'],
+       [ev('RegisterPost', pid='u2', pw=2, junk='extra'), ev('RegisterPost', 'b2', pid='u2', pw=3), ev('RegisterPost', 'b2', pid='g1', pw=1, valid=False, junk='nopw')],
+       seed=[U('u1', 1)], regNoWhitelist=True),
+    sc('default-whitelist-extra-fields', ['auth', 'register', 'confirm', 'logout'],
+       [ev('RegisterPost', pid='u2', pw=5, junk='extra'), ev('ConfirmGet', tok=1), login('u2', 5)], seed=[U('u1', 1)]),
 ]
